@@ -39,59 +39,6 @@ def srLine (pk m sg : Bytes) : String :=
   if model == spec then model
   else s!"{model}\tspec={spec}\tkf={if isIdentityKey pk then "sr25519-identity-key" else "sr25519-deprecated-differs"}"
 
-/-! host functions of lib/runtime/wazero/imports.go -/
-
-def zeros32 : Bytes := List.replicate 32 0
-
-/-- `ext_crypto_sr25519_verify_version_1` as written: 0 only when the public key does not decode;
-    the result of `VerifyDeprecated` is logged, not returned -/
-def hostSr1Go (pk _m _sg : Bytes) : Bool := (rDecode pk).isSome
-
-/-- `ext_crypto_sr25519_verify_version_2` as written: the all-zero key is handed to version 1 -/
-def hostSr2Go (pk m sg : Bytes) : Bool :=
-  if pk == zeros32 then hostSr1Go pk m sg else srVerifyGo pk m sg
-
-/-- `ext_crypto_ecdsa_verify_version_2` as written: BLAKE2b-256 of the message, plain (low-s) ECDSA
-    verification of the first 64 signature bytes; the recovery id is never read -/
-def hostEcvGo (pub m sg : Bytes) : Bool := ecdsaVerify pub (blake2b 32 m) (sg.take 64)
-
-/-- Substrate `ecdsa::Pair::verify`: recover the key from the 65-byte signature (recovery id 0..3, no
-    27 offset) over BLAKE2b-256 of the message and compare its compressed form with the given key -/
-def hostEcvRef (pub m sg : Bytes) : Bool :=
-  if sg.length ≠ 65 ∨ (sg.getD 64 0).toNat > 3 then false else
-  match ecdsaRecover (blake2b 32 m) sg with
-  | some q => ((if natOfBE (q.drop 32) % 2 == 1 then 3 else 2) :: q.take 32) == pub
-  | none => false
-
-def compressQ (q : Bytes) : Bytes := (if natOfBE (q.drop 32) % 2 == 1 then 3 else 2) :: q.take 32
-
-/-- SCALE `Result<[u8; N], EcdsaVerifyError>` as gossamer writes it: `00 ‖ key` or the single byte `01` -/
-def hostRecoverGo (compressed : Bool) (m sg : Bytes) : Bytes :=
-  match ecdsaRecover m sg with
-  | some q => 0 :: (if compressed then compressQ q else q)
-  | none => [1]
-
-/-- the same as Substrate's `secp256k1_ecdsa_recover(_compressed)`: the error carries its variant
-    (BadRS = 0, BadV = 1, BadSignature = 2); version 1 parses r and s "overflowing" (reduced mod n),
-    version 2 rejects r, s ≥ n with BadRS -/
-def hostRecoverRef (ver : Nat) (compressed : Bool) (m sg : Bytes) : Bytes :=
-  let v0 := (sg.getD 64 0).toNat
-  let v := if v0 > 26 then v0 - 27 else v0
-  let r := natOfBE (sg.take 32)
-  let s := natOfBE ((sg.drop 32).take 32)
-  let sg' : Bytes := if ver == 1 then beBytes 32 (r % skN) ++ beBytes 32 (s % skN) ++ [sg.getD 64 0] else sg
-  if ver == 1 then
-    if v > 3 then [1, 1] else
-    match ecdsaRecover m sg' with
-    | some q => 0 :: (if compressed then compressQ q else q)
-    | none => [1, 2]
-  else
-    if v > 3 then [1, 1] else
-    if r ≥ skN || s ≥ skN then [1, 0] else
-    match ecdsaRecover m sg' with
-    | some q => 0 :: (if compressed then compressQ q else q)
-    | none => [1, 2]
-
 def bit (b : Bool) : String := if b then "1" else "0"
 
 /-- one host call: (model, spec, tag) -/
